@@ -940,6 +940,19 @@ func ModifyRegister(register *object.Register, in ast.Node) (ast.Node, bool) {
 		if in.Type() == token.DEL && len(in.Parameters) == 1 && in.Parameters[0] == ast.Node(register) {
 			return nil, false
 		}
+		// quote(... x ...) is about the name, not the register that stands for it in this call.
+		if in.Type() == token.QUOTE && len(in.Parameters) == 1 {
+			found := false
+			ast.ModifyNoOk(in.Parameters[0], func(n ast.Node) ast.Node {
+				if n == ast.Node(register) {
+					found = true
+				}
+				return n
+			})
+			if found {
+				return nil, false
+			}
+		}
 	case *ast.ForExpression:
 		// for x = ... { } reusing the name as loop variable: same, needs the variable.
 		if ie, ok := in.Condition.(*ast.InfixExpression); ok && ie.Left == ast.Node(register) {
